@@ -24,6 +24,7 @@ from .common import Report, Violation
 CLAUSES = {
     "Inv_C01_Conservation": "C01",
     "Inv_C02_NonNegative": "C02", "Inv_C02_BorrowedIsOpenPrincipal": "C02", "Obs_TotalIsAvailPlusHoldMinusBorrowed": "C02",
+    "Obs_LoanListings": "C02",
     "Act_C04_FillOK": "C04", "Act_C04_OnlyBarsFill": "C04", "Act_C04_Complete": "C04", "Act_C04_CompleteDust": "C04",
     "Inv_C05_OrderShape": "C05", "Act_C05_Lifecycle": "C05", "Act_C05_FillOrKill": "C05", "Obs_Listings": "C05",
     "Obs_Remaining": "C05", "Step_OpenList": "C05", "Inv_C05_Events": "C05",
@@ -35,6 +36,14 @@ CLAUSES = {
     "Act_C10_GrantedImpliesMargin": "C10", "Inv_C10_NoLendingNoLoans": "C10",
     "Act_C11_LoanClosure": "C11", "Step_OutInt": "C11", "Step_AutoRepay": "C11",
 }
+# Clauses that only read what the implementation reported (balances, orders, loans, listings) plus data fixed by the script
+# (request fields, bars, conditions in force): they are judged at EVERY step, because the validator re-synchronises with the
+# implementation's observables after each step.  Clauses that read the spec's hidden bookkeeping (per-order reservations,
+# the stop latch, auto-repay attribution) are only judged at the first step where implementation and spec part ways.
+ROBUST = {"Obs_LoanListings", "Inv_C01_Conservation", "Inv_C02_NonNegative", "Inv_C02_BorrowedIsOpenPrincipal", "Obs_TotalIsAvailPlusHoldMinusBorrowed",
+          "Act_C04_OnlyBarsFill", "Inv_C05_OrderShape", "Act_C05_Lifecycle", "Act_C05_FillOrKill", "Obs_Listings", "Obs_Remaining",
+          "Inv_C06_NoOpenNoHold", "Inv_C06_HoldLeBalance", "Act_C07_RejectedUnchanged", "Act_C08_LiquidityCap", "Obs_Grid",
+          "Inv_C09_TotalFee", "Obs_FeesOnlyInQuote", "Act_C10_GrantedImpliesMargin", "Inv_C10_NoLendingNoLoans"}
 DRIFT_CLAUSES = {"Step_BidAsk", "Step_Structure", "Step_Outcome", "Step_ErrClass", "Step_Balances", "Step_Holds", "Step_Orders",
                  "Step_Loans", "End_Complete", "End_EventsMatchSpec"}
 
@@ -172,7 +181,7 @@ MC = {
     "twopairs": dict(
         cfg=base_cfg(syms=["BTC", "ETH", "USD"], scale={"BTC": 1, "ETH": 1, "USD": 1},
                      pairs=[{"b": "BTC", "q": "USD"}, {"b": "ETH", "q": "USD"}], init={"BTC": 0, "ETH": 1, "USD": 4},
-                     cond={s: no_cond() for s in ["BTC", "ETH", "USD"]}),
+                     cond={s: no_cond() for s in ["BTC", "ETH", "USD"]}, reindexEvery=2),
         req=reqset(["market", "limit"], [1, 2], [2], [2], pairs=[1, 2]), bars=barset([1, 3], [4], pairs=[1, 2]),
         loans="{}", bounds=dict(MaxOrders=2, MaxLoans=0, MaxBars=3, MaxCalls=2), times=[1]),
 }
@@ -278,7 +287,7 @@ def slim(tr: dict, tid: int) -> dict:
                       "openList": s.get("openList", []), "perPairOk": s.get("perPairOk", True),
                       "obs": {"clock": o["clock"], "bal": o["bal"], "hold": o["hold"], "bor": o["bor"], "bidask": o["bidask"],
                               "orders": o["orders"], "loans": o["loans"], "totalOk": o["totalOk"],
-                              "listingOk": o["listingOk"], "offgrid": o["offgrid"][:3]}})
+                              "listingOk": o["listingOk"], "loanListingOk": o.get("loanListingOk", True), "offgrid": o["offgrid"][:3]}})
     if "truncated_at" in tr:
         return {"id": tid, "cfg": tr["cfg"], "steps": steps, "events": [], "complete": False, "truncated": True}
     return {"id": tid, "cfg": tr["cfg"], "steps": steps, "events": [e for e in tr["events"] if "info" in e],
@@ -415,14 +424,17 @@ def random_cfg(rng: random.Random, profile: str) -> dict:
                                              reqN=rng.choice([1, 2, 4]))
                 continue
             if rng.random() < 0.85:
-                cfg["cond"][s] = margin_cond(rng.choice([s, "USD"]), *rng.choice([(0, 1), (1, 100), (1, 10), (7, 100)]),
+                req = rng.choice([1, 2, 4, 8, 0])
+                # a symbol without requirement can be borrowed before it has a price: its interest stays in its own symbol
+                # (get_loans() raises NoPrice for a loan whose outstanding interest cannot be converted, observation O8)
+                cfg["cond"][s] = margin_cond(s if req == 0 else rng.choice([s, "USD"]), *rng.choice([(0, 1), (1, 100), (1, 10), (7, 100)]),
                                              period=rng.choice([1, 2, 4, 8]),
-                                             minInt=rng.choice([0, 0, 1, 5]), reqN=rng.choice([1, 2, 4, 8]))
+                                             minInt=rng.choice([0, 0, 1, 5]), reqN=req)
     cfg["condAlt"] = {s: dict(c) for s, c in cfg["cond"].items()}
     cfg["istep"] = {s: 1 for s in syms}
-    if lend == "margin" and not cfg.get("borrowOnly") and rng.random() < 0.3:
+    if not cfg.get("borrowOnly") and not cfg.get("inverse") and rng.random() < 0.3:
         # the precision configured for a symbol is coarser than the precision of the pairs it trades in (set_pair_info):
-        # interest is truncated to the symbol's precision, amounts and loans are not
+        # interest is truncated to the symbol's precision, amounts, fills and loans are not
         for s in syms:
             if cfg["scale"][s] >= 10 and rng.random() < 0.7:
                 cfg["istep"][s] = 10
@@ -620,6 +632,20 @@ def corpus() -> List[dict]:
             {"kind": "cancel_order", "arg": 2},
             {"kind": "get_open_orders", "arg": 2},
             {"kind": "bar", "arg": dict(p=1, t=4, o=10, h=10, l=10, c=10, v=vol)}]})
+    # two pairs and an open-list re-indexing on every 2nd traversal: an order of one pair stays in the books (and is
+    # completely filled by its pair's next bar) however many bars of the other pair are processed in between
+    for ty, nb in (("limit", 2), ("market", 3), ("limit", 5)):
+        cfg = base_cfg(syms=["BTC", "ETH", "USD"], scale={"BTC": 1, "ETH": 1, "USD": 1},
+                       pairs=[{"b": "BTC", "q": "USD"}, {"b": "ETH", "q": "USD"}], init={"BTC": 5, "ETH": 5, "USD": 1000},
+                       cond={s: no_cond() for s in ["BTC", "ETH", "USD"]}, reindexEvery=2)
+        steps = [{"kind": "bar", "arg": dict(p=1, t=1, o=10, h=10, l=10, c=10, v=1000)},
+                 {"kind": "bar", "arg": dict(p=2, t=1, o=20, h=20, l=20, c=20, v=1000)},
+                 {"kind": "create_order", "arg": _req(type=ty, op="buy", pair=2, amount=3, limit=25 if ty == "limit" else 0)},
+                 {"kind": "create_order", "arg": _req(type="limit", op="sell", pair=1, amount=2, limit=500)}]
+        steps += [{"kind": "bar", "arg": dict(p=1, t=2 + i, o=10, h=11, l=9, c=10, v=1000)} for i in range(nb)]
+        steps += [{"kind": "bar", "arg": dict(p=2, t=2 + nb, o=20, h=21, l=19, c=20, v=1000)},
+                  {"kind": "get_open_orders", "arg": 3}]
+        out.append({"cfg": cfg, "steps": steps})
     # KF-1 (known finding, C04): a fill whose quote amount rounds to zero is ignored -- kept so that every run reports it
     cfg = base_cfg(scale={"BTC": 100, "USD": 100}, init={"BTC": 0, "USD": 1000})
     out.append({"cfg": cfg, "steps": [
@@ -747,10 +773,17 @@ def judge(rep: Report, prop: str, traces, slimmed, verdicts, n_replay: int):
         if not v["viol"]:
             continue
         first = min(x["step"] for x in v["viol"])
+        first_div = first
         clauses = sorted(x["clause"] for x in v["viol"] if x["step"] == first)
         mine = [c for c in clauses if CLAUSES.get(c) == prop]
+        if not mine:
+            later = sorted((x["step"], x["clause"]) for x in v["viol"] if x["clause"] in ROBUST and CLAUSES.get(x["clause"]) == prop)
+            if later:
+                first = later[0][0]
+                clauses = sorted(x["clause"] for x in v["viol"] if x["step"] == first)
+                mine = [c for st, c in later if st == first]
         step = tr["steps"][first - 1] if first <= len(tr["steps"]) else {"kind": "end", "arg": None, "ok": True, "err": ""}
-        detail = {"trace": sl["id"], "leg": leg, "step": first, "clauses_at_step": clauses,
+        detail = {"trace": sl["id"], "leg": leg, "step": first, "first_divergence_step": first_div, "clauses_at_step": clauses,
                   "call": {"kind": step["kind"], "arg": step["arg"], "ok": step.get("ok"), "err": step.get("err")},
                   "origin": tr.get("origin"), "crash": tr.get("crash")}
         if mine:
